@@ -9,7 +9,7 @@ CONSTANTS
   GhostFields = {"z"}
   ProvValSet = {"s:x", "f:2.5"}
   ProvMaxSpans = 2
-  ProvCfgNames = {"a", "ab", "ra", "a_rb", "a_ra", "ab_ra", "ra_rb"}
+  ProvCfgNames = {"ab", "a_rb", "a_ra"}
   ProvUTL = {FALSE}
   ProvMix = "all"
 INVARIANTS TypeOK NFSound PermutationInvariant DuplicationInvariant IrrelevantCellsInvariant PairsDistinct PayloadSound ProvenanceInvariant AnyProvenanceInvariant OutConsistent
